@@ -31,6 +31,13 @@ def run(repo, tier) -> Result:
     from ..ownership import check_raw_copies
 
     check_raw_copies("C11", res, repo)
+    # "of the collapsed raw candles": the walk that builds the buckets a conversion starts from (every candle of a window merged, on raw values)
+    from ..manager_rules import check_collapse
+
+    check_collapse("C11", res, repo, want=("R-CONSERVE",))
+    from ..framework_rules import check_converter_stateless
+
+    check_converter_stateless("C11", res, repo)
     # the candlestick type object is shared by every manager of a Hexital: it must stay stateless
     eff = Effects(repo)
     for mod, cls, nm in (("hexital.core.candlestick_type", "CandlestickType", "conversion"), ("hexital.core.candlestick_type", "CandlestickType", "_find_conv_index"), ("hexital.candlesticks.heikinashi", "HeikinAshi", "convert_candle")):
